@@ -12,9 +12,18 @@ CLAIMED = {
  "C03": ("exploration", "Hypothesis sizes/arguments; buffer lengths vs the transfer announced by the independently decoded CDB; both transports over auditing stand-in bindings", "4 C03",
          "Generated block sizes, transfer/allocation lengths, ATA transfer-mode combinations and parameter dictionaries for every class; buffers compared with the rule the standard attaches to the decoded CDB, then executed through SCSIDevice and ISCSIDevice over stand-in bindings which audit direction and lengths.",
          "stdspec/cdb.py; stand-ins for cython-sgio / cython-iscsi (DESIGN.md Appendix D); buffers bounded to 2^26 bytes"),
+ "C16": ("exploration", "exhaustive type x qualifier x device-kind sweep + Hypothesis attach/re-attach/command sequences against per-device simulated targets; fresh-attach reference (no-leak relation)", "4 C16",
+         "All 32 peripheral device types x 8 qualifiers x {plain object, SCSIDevice, ISCSIDevice} are enumerated; generated re-attach sequences check that attach sends exactly one standard INQUIRY, the selected set is the one the property names (or offers the primary commands), equals what a fresh facade selects for the same type, earlier devices are untouched, and later commands reach the new device with opcodes of the new set.",
+         "simulated targets behind per-device routes of the stand-ins; which table unrecognised types get is not constrained"),
  "C17": ("exploration", "Hypothesis invalid-request classes with expected-exception oracle, zero-execute audit and nearest-valid twin; 256 opcodes x 42 constructors enumerated", "4 C17",
          "Five invalid-input classes crossed with generated otherwise-valid arguments, each with its nearest valid twin so that both 'refuses too little' and 'refuses too much' are visible; recording device proves nothing was sent.",
          "errors identified by class name; unimplemented-but-listed EXTENDED COPY type codes are outside the property"),
+ "C07": ("fault_enumeration", "fault injection: generated (command, status, sense, raw-sense, re-execution) histories on SG_IO and iSCSI stand-ins + status-byte sweep through direct execute and every facade method; expected-outcome oracle", "4 C07",
+         "Statuses and sense buffers are injected behind both binding stand-ins at generated positions of generated command histories; all 256 status bytes are swept through direct execute and the named/selected ones through each facade method; the oracle is the outcome table of the property (GOOD returns, CHECK CONDITION raises with the injected key/ASC/ASCQ or attaches raw sense when asked, other statuses raise their named error, the facade passes the device's exception object on).",
+         "stand-ins model cython-sgio (CheckConditionError / UnspecifiedError, no status byte) and cython-iscsi (Task.status, Task.raw_sense); SG_IO non-CHECK-CONDITION failures: any exception"),
+ "C08": ("exploration", "exhaustive enumeration of response code x key x ASC/ASCQ + Hypothesis buffers (truncation, descriptors, noise); positions per SPC and T10 texts from an independent list", "4 C08",
+         "Quick enumerates all 65536 ASC/ASCQ pairs per response code and all format x key combinations on a spread sample; thorough enumerates the full 4x2x16x65536 product; generated buffers add truncation, noise and descriptor lists. Construction, str, repr and print must not raise; key/ASC/ASCQ must be the bytes at the SPC positions; ~130 assigned codes are compared with independently transcribed T10 texts.",
+         "stdspec/sense.py; other table entries only for self-consistency; vendor-specific ranges accept any text"),
  "C10": ("exploration", "Hypothesis layouts/values/orders vs big-integer reference codec + exhaustive narrow fields", "4 C10",
          "Generated-input search over layouts (any width/alignment/blob/order/prior content) against a big-integer reference codec, plus exhaustive enumeration of narrow fields; exploration, not proof: the wide-field space is sampled with boundary bias.",
          "reference codec in props/c10_codec.py; XOR contract (field bits zero before encoding)"),
